@@ -6,6 +6,8 @@
 #include "tissue.hpp"
 #include "local_mesh_refiner.hpp"
 #include <cstring>
+#include <csignal>
+#include <unistd.h>
 
 struct trace_rec { std::string op; unsigned a,b,c,d,e; };
 static std::vector<trace_rec> g_trace;
@@ -64,11 +66,17 @@ static void dump(cell_ptr c, const std::string& name, const std::string& exc){
 
 static double mean_edge(cell_ptr c){ double s=0; size_t k=0; for (const edge& e : c->get_edge_set()){ s += (c->get_node_lst()[e.n1()].pos() - c->get_node_lst()[e.n2()].pos()).norm(); k++; } return k? s/k : 1.0; }
 
+// per-history time budget: a remeshing loop that does not return is reported, the remaining histories still run
+static void on_alarm(int){ const char m[] = " TIMEOUT\n"; ssize_t r = write(1, m, sizeof m - 1); (void)r; _exit(3); }
+
 int main(){
     std::string line;
+    std::signal(SIGALRM, on_alarm);
+    const char* tb = std::getenv("VERIF_CASE_SECONDS"); const unsigned budget = tb ? (unsigned)std::atoi(tb) : 20u;
     while (std::getline(std::cin, line)){
         if (line.empty()) continue;
         std::istringstream in(line);
+        std::cout.flush(); alarm(budget);
         try {
             tissue_case t = read_tissue(in);
             expect(in, "R"); double lmin = rd(in), lmax = rd(in); int swap; in >> swap;
@@ -109,6 +117,7 @@ int main(){
             }
             std::cout << "\n";
         } catch (const std::exception& e){ std::cout << "FATAL " << e.what() << "\n"; }
+        alarm(0);
     }
     return 0;
 }
